@@ -2,7 +2,7 @@
 # usage: tools/seedin.sh <PROP> <n1> <n2> [<checks>]  - take change1/2 + demo1/2 + notes from /tmp/seed-<PROP>-work2 as seeds <PROP>-<n1>, <PROP>-<n2>
 # and evaluate them (serialised with other evaluations by a lock; results in seeded/<name>/result.json)
 cd /verif
-P=$1; W=/tmp/seed-$P-work2; checks=${4:-$P}
+P=$1; W=/tmp/seed-$P-work${ROUND:-2}; checks=${4:-$P}
 for k in 1 2; do
   n=$([ $k = 1 ] && echo $2 || echo $3)
   mkdir -p seeded/$P-$n
